@@ -31,3 +31,59 @@ func UnwrapPtr(x any) any {
 	}
 	return refVal.Interface()
 }
+
+// DeepCopyValue returns a copy of v that shares no slice, map or pointed-to memory with v.
+// Unexported struct fields are copied as they are.
+func DeepCopyValue(v reflect.Value) reflect.Value {
+	switch v.Kind() {
+	case reflect.Slice:
+		if v.IsNil() {
+			return v
+		}
+		cp := reflect.MakeSlice(v.Type(), v.Len(), v.Len())
+		for i := 0; i < v.Len(); i++ {
+			cp.Index(i).Set(DeepCopyValue(v.Index(i)))
+		}
+		return cp
+	case reflect.Array:
+		cp := reflect.New(v.Type()).Elem()
+		for i := 0; i < v.Len(); i++ {
+			cp.Index(i).Set(DeepCopyValue(v.Index(i)))
+		}
+		return cp
+	case reflect.Map:
+		if v.IsNil() {
+			return v
+		}
+		cp := reflect.MakeMapWithSize(v.Type(), v.Len())
+		iter := v.MapRange()
+		for iter.Next() {
+			cp.SetMapIndex(iter.Key(), DeepCopyValue(iter.Value()))
+		}
+		return cp
+	case reflect.Pointer:
+		if v.IsNil() {
+			return v
+		}
+		cp := reflect.New(v.Type().Elem())
+		cp.Elem().Set(DeepCopyValue(v.Elem()))
+		return cp
+	case reflect.Interface:
+		if v.IsNil() {
+			return v
+		}
+		cp := reflect.New(v.Type()).Elem()
+		cp.Set(DeepCopyValue(v.Elem()))
+		return cp
+	case reflect.Struct:
+		cp := reflect.New(v.Type()).Elem()
+		cp.Set(v)
+		for i := 0; i < v.NumField(); i++ {
+			if f := cp.Field(i); f.CanSet() {
+				f.Set(DeepCopyValue(v.Field(i)))
+			}
+		}
+		return cp
+	}
+	return v
+}
